@@ -25,6 +25,7 @@ pub fn gram_opts(rng: &mut Rng, max_size: usize) -> GramOpts {
         max_expr_depth: *rng.pick(&[2, 3, 3, 4]),
         anon_in_headers: rng.chance(1, 5),
         anon_in_raise: rng.chance(1, 5),
+        extended: rng.chance(1, 2),
         ..Default::default()
     }
 }
